@@ -60,3 +60,38 @@ Fixpoint written_tag (l : jline) : option bytes :=
   end.
 
 Definition line_tag (l : jline) : bytes := match written_tag l with Some t => t | None => [] end.
+
+(* How Scan holds its decode target, as the translator re-reads it from jsonline.go
+   (translate jsontarget): declared inside the loop (`var da entity`: a fresh zero value per
+   line), or one value living across the lines with the listed fields reset before each decode. *)
+Inductive jfield := FHost | FMethod | FUri | FHeaders | FTag | FBody.
+Inductive jtarget := TFresh | TReused (reset : list jfield).
+
+Definition jfield_eqb (a b : jfield) : bool :=
+  match a, b with
+  | FHost, FHost | FMethod, FMethod | FUri, FUri | FHeaders, FHeaders | FTag, FTag | FBody, FBody => true
+  | _, _ => false
+  end.
+
+Definition resets (fs : list jfield) (f : jfield) : bool := existsb (jfield_eqb f) fs.
+
+Definition clear_fields (fs : list jfield) (e : entity) : entity :=
+  {| j_host := if resets fs FHost then [] else j_host e;
+     j_method := if resets fs FMethod then [] else j_method e;
+     j_uri := if resets fs FUri then [] else j_uri e;
+     j_headers := if resets fs FHeaders then [] else j_headers e;
+     j_tag := if resets fs FTag then [] else j_tag e;
+     j_body := if resets fs FBody then [] else j_body e |}.
+
+Definition scan_entities (t : jtarget) (ls : list jline) : list entity :=
+  match t with
+  | TFresh => lines_entities ls
+  | TReused fs => reuse_entities (clear_fields fs) fresh_entity ls
+  end.
+
+(* the condition the bridge checks of the source *)
+Definition target_zeroed (t : jtarget) : bool :=
+  match t with
+  | TFresh => true
+  | TReused fs => forallb (resets fs) [FHost; FMethod; FUri; FHeaders; FTag; FBody]
+  end.
